@@ -170,7 +170,25 @@ func memAnyOp(o *h.Out, rc *h.Rng, ans func(string)) {
 	case "CODECOPY":
 		a.push(size).pushN(0).push(off).op(vm.CODECOPY)
 	case "RETURNDATACOPY":
-		a.push(size).pushN(0).push(off).op(vm.RETURNDATACOPY)
+		if rc.Bool() {
+			a.push(size).pushN(0).push(off).op(vm.RETURNDATACOPY)
+		} else {
+			// with 32 bytes of return data from a previous call: the data offset and length are checked against it,
+			// also when their sum wraps around 2^64 or 2^256
+			name += "+data"
+			env.sdb.CreateAccount(evContract(2))
+			env.sdb.SetCode(evContract(2), (&asm{}).pushN(7).returnTop().b)
+			a.pushN(0).pushN(0).pushN(0).pushN(0).pushB(to).pushN(50000).op(vm.STATICCALL).op(vm.POP)
+			dataOff := memSize(rc)
+			if rc.Chance(40) {
+				dataOff = big.NewInt(int64(rc.Intn(34)))
+			}
+			ln := big.NewInt(int64(rc.Intn(40)))
+			if rc.Chance(20) {
+				ln = memSize(rc)
+			}
+			a.push(ln).push(dataOff).pushN(uint64(rc.Intn(64))).op(vm.RETURNDATACOPY)
+		}
 	case "EXTCODECOPY":
 		a.push(size).pushN(0).push(off).pushB(to).op(vm.EXTCODECOPY)
 	case "MCOPY":
